@@ -1,6 +1,7 @@
 package core
 
 import (
+	"os"
 	"path/filepath"
 	"runtime"
 	"strings"
@@ -106,5 +107,126 @@ func TestTermsIgnoreLocalNames(t *testing.T) {
 func TestLoadRejectsBrokenTree(t *testing.T) {
 	if _, err := Load(filepath.Join(fixDir(t), "does-not-exist")); err == nil {
 		t.Fatal("loading a missing directory must fail")
+	}
+}
+
+func loadFlat(t *testing.T, anchors ...string) *Prog {
+	t.Helper()
+	dir := t.TempDir()
+	file := filepath.Join(dir, "anchors.txt")
+	if err := os.WriteFile(file, []byte(strings.Join(anchors, "\n")+"\n"), 0o644); err != nil {
+		t.Fatal(err)
+	}
+	old := AnchorsFile
+	AnchorsFile = file
+	defer func() { AnchorsFile = old }()
+	p, err := Load(fixDir(t))
+	if err != nil {
+		t.Fatal(err)
+	}
+	return p
+}
+
+func callsTo(fn *ssa.Function, name string) int {
+	n := 0
+	for _, b := range fn.Blocks {
+		for _, in := range b.Instrs {
+			if c, ok := in.(ssa.CallInstruction); ok {
+				if g := c.Common().StaticCallee(); g != nil && g.Name() == name {
+					n++
+				}
+			}
+		}
+	}
+	return n
+}
+
+// Helpers that are not anchors are inlined, transitively; the re-tests of what
+// they returned are threaded away and every path keeps its own return.
+func TestFlattenInlinesAndThreads(t *testing.T) {
+	p := loadFlat(t, "fix.FlatCaller")
+	fn := p.Func("fix", "FlatCaller")
+	if n := callsTo(fn, "decodePair") + callsTo(fn, "readTwo"); n != 0 {
+		t.Fatalf("%d calls to helpers left in FlatCaller", n)
+	}
+	if err := fn.SanityCheck(); err != nil {
+		t.Fatal(err)
+	}
+	// each error return carries exactly one sentinel, as in the un-refactored shape
+	var got []string
+	for _, r := range Returns(fn) {
+		e := p.X(r.Results[1])
+		if e.Op == "const" {
+			continue
+		}
+		if len(e.Alts()) != 1 {
+			t.Fatalf("a return of FlatCaller carries several alternatives: %s", e)
+		}
+		got = append(got, e.String())
+	}
+	if len(got) != 2 {
+		t.Fatalf("want two error returns (ErrShort, ErrBad), got %v", got)
+	}
+	// no conditional re-tests a boolean or an error that inlining merged
+	for _, b := range fn.Blocks {
+		if iff, ok := b.Instrs[len(b.Instrs)-1].(*ssa.If); ok {
+			if ph, ok := iff.Cond.(*ssa.Phi); ok {
+				t.Fatalf("block %d still branches on a merged value %s", b.Index, ph)
+			}
+		}
+	}
+	if len(p.Flattened) == 0 {
+		t.Fatal("nothing recorded as flattened")
+	}
+}
+
+// With every function an anchor, flattening is the identity.
+func TestFlattenIdentityOnAnchors(t *testing.T) {
+	p := loadFlat(t, "fix.FlatCaller", "fix.decodePair", "fix.readTwo")
+	fn := p.Func("fix", "FlatCaller")
+	if callsTo(fn, "decodePair") != 1 {
+		t.Fatal("an anchor was inlined")
+	}
+}
+
+// A literal called through its (write-once) variable from a nested literal.
+func TestFlattenClosureThroughVariable(t *testing.T) {
+	p := loadFlat(t, "fix.FlatClosure", "fix.FlatClosure$")
+	fn := p.Func("fix", "FlatClosure")
+	for _, l := range Closures(fn) {
+		for _, b := range l.Blocks {
+			for _, in := range b.Instrs {
+				if c, ok := in.(*ssa.Call); ok {
+					if g, _ := ssa.StaticInlinee(c); g != nil && strings.HasSuffix(g.Name(), "$1") && g.Parent() == fn && len(g.Params) == 1 {
+						t.Fatalf("call of the literal `add` left in %s", l)
+					}
+				}
+			}
+		}
+		if err := l.SanityCheck(); err != nil {
+			t.Fatal(err)
+		}
+	}
+}
+
+// A bound method value is seen through: its wrapper is among the closures and
+// contains the method's body.
+func TestFlattenMethodValue(t *testing.T) {
+	p := loadFlat(t, "fix.FlatMethodValue")
+	fn := p.Func("fix", "FlatMethodValue")
+	found := false
+	for _, l := range Closures(fn) {
+		if strings.HasPrefix(l.Synthetic, "bound method wrapper") {
+			for _, b := range l.Blocks {
+				for _, in := range b.Instrs {
+					if c, ok := in.(*ssa.Call); ok && strings.Contains(c.String(), "AddUint8") {
+						found = true
+					}
+				}
+			}
+		}
+	}
+	if !found {
+		t.Fatal("the bound method's body was not inlined into its wrapper")
 	}
 }
